@@ -163,7 +163,11 @@ def r15_2(ctx, rep, roles):
         fired = [e for e in row.calls() if e[1] == trig["id"]]
         want = stored and known_status and not deleted
         if stored and not known_status:
-            rep.obligation(not fired, "C15/R15.2/fires-without-status-check", "an event fires on a path that does not examine the new status", where(svv))
+            # a path that stores the update but returns without deciding on its status: it either notifies for a tombstone or,
+            # as in seed R3-C15-2 ("value unchanged" shortcut), stays silent for a visible insert
+            rep.obligation(False, "C15/R15.2/stored-without-status-decision",
+                           "set_versioned_value stores the update on a path that never examines its status (%d events on that path): conditions [%s]" % (
+                               len(fired), "; ".join(sym.fmt_cond(c)[:60] for c in row.cond)), where(svv))
             continue
         rep.obligation(len(fired) == (1 if want else 0), "C15/R15.2/fire-rule",
                        "stored=%s status=%s -> %d events" % (stored, st, len(fired)), where(svv),
